@@ -150,6 +150,9 @@ type CR3Parts struct {
 	// the preview uuid box.
 	PrvwSizeDelta int
 	PrvwTail      bool
+	// PrvwOdd: the child of the preview uuid box is not a PRVW box (same bytes under another
+	// type): the reader reports an error for it, and still has to leave the box behind.
+	PrvwOdd bool
 }
 
 // CR3 is a generated file and its ground truth.
@@ -295,6 +298,9 @@ func BuildCR3(r *core.Rng, p CR3Parts, noise int, large64 bool) CR3 {
 		binary.BigEndian.PutUint16(pr[10:], 1)
 		binary.BigEndian.PutUint32(pr[12:], uint32(len(p.Preview)+p.PrvwSizeDelta))
 		prvw := &Box{Type: "PRVW", Payload: append(pr, p.Preview...), Tag: "PRVW"}
+		if p.PrvwOdd {
+			prvw.Type = r.PickStr("PRVX", "free", "uuid", "THMB")
+		}
 		named["PRVW"] = prvw
 		// preview uuid: 8 bytes (version/flags + count) precede the PRVW box
 		pvKids := []*Box{prvw}
